@@ -1,11 +1,17 @@
+mod alloc;
 mod chan;
 mod driver;
+mod forkrun;
+mod reg;
 mod vsched;
 
 use driver::{PropDef, Tier};
 
+#[global_allocator]
+static GLOBAL: alloc::CountingAlloc = alloc::CountingAlloc;
+
 fn props() -> Vec<&'static PropDef> {
-    vec![&chan::C06, &chan::C07, &chan::C08]
+    vec![&chan::C06, &chan::C07, &chan::C08, &reg::C01, &reg::C02, &reg::C03, &reg::C04, &reg::C18]
 }
 
 fn find(id: &str) -> &'static PropDef {
